@@ -24,11 +24,11 @@ import (
 // its reports are collected from the log.
 
 type CS1 struct {
-	A int               `json:"a"`
-	B string            `json:"b,omitempty"`
-	C []int             `json:"c"`
-	D *CS2              `json:"d,omitempty"`
-	E map[string]any    `json:"e,omitempty"`
+	A int            `json:"a"`
+	B string         `json:"b,omitempty"`
+	C []int          `json:"c"`
+	D *CS2           `json:"d,omitempty"`
+	E map[string]any `json:"e,omitempty"`
 	F float64
 }
 
